@@ -193,7 +193,10 @@ def make_exc(kind, item):
         # the worker process dies hard in the middle of an item (real driver only). Outputs of earlier items are first given
         # time to leave the process: dying while the queue's feeder thread holds the cross-process write lock would block the
         # other workers for ever - that is a property of multiprocessing.Queue, not of the code under test
-        import time; time.sleep(0.05)
+        import time, multiprocessing
+        if multiprocessing.parent_process() is None:
+            raise InjectedError(item)   # not inside a worker process (in-process configuration): never kill the harness itself
+        time.sleep(0.05)
         os._exit(3)
     cls = KINDS[kind]
     return cls(item) if cls is InjectedError else cls(f"injected failure for item {item}")
